@@ -35,7 +35,7 @@ ASSUME = ["identifier values 0 and 2^32-1 are valid and are used (each special k
 SYMS = ["HS", "REQ", "REQ_missing", "REQ_unknown_cmd", "REQ_unknown_app", "REQ_foreign_realm", "REQ_no_realm",
         "REQ_T", "REQ_raise", "ANS_stray", "ANS_no_origin", "ANS_no_result", "CEA_no_origin", "CEA_stray",
         "DWA_stray", "DWA_no_origin", "DPA_stray", "DPA_no_result", "DWR", "DPR", "NODE_REQ", "NODE_REQ_ANS",
-        "ADV2", "ADV_IDLE", "REQ_hold", "SUBMIT", "RECONNECT", "REQ2_seg", "DWR_REQ_seg", "REQ_DWR_seg", "REQ_exp_result", "REQ_dup_avp", "REQ_dup_avp_T", "REQ_non_utf8_origin", "DWR_non_utf8_origin", "DPR_non_utf8_origin", "REQ_answer_then_raise", "REQ_hold_then_raise"]
+        "ADV2", "ADV_IDLE", "REQ_hold", "SUBMIT", "RECONNECT", "REQ2_seg", "DWR_REQ_seg", "REQ_DWR_seg", "REQ_exp_result", "REQ_dup_avp", "REQ_dup_avp_T", "REQ_non_utf8_origin", "DWR_non_utf8_origin", "DPR_non_utf8_origin", "REQ_answer_then_raise", "REQ_hold_then_raise", "HS_bad_host_ip"]
 DEFECTIVE = {"ANS_stray", "ANS_no_origin", "ANS_no_result", "CEA_no_origin", "CEA_stray", "DWA_stray",
              "DWA_no_origin", "DPA_stray", "DPA_no_result", "REQ_missing", "REQ_unknown_cmd", "REQ_unknown_app",
              "REQ_foreign_realm", "REQ_no_realm", "REQ_raise", "REQ_T", "REQ_dup_avp", "REQ_dup_avp_T", "REQ_non_utf8_origin", "DWR_non_utf8_origin", "DPR_non_utf8_origin"}
@@ -127,6 +127,14 @@ def evaluate(case) -> Result:
                     w.answer_cer(c, 2001, auth=(4,), host=host)
                 else:
                     w.feed_msg(c, dict(base, k="CER", auth=[4]))
+            elif s == "HS_bad_host_ip":
+                # a CER with every mandatory AVP present, whose Host-IP-Address cannot be decoded (IPv4 family, three
+                # address octets): whatever the node answers, it answers once
+                if hs[ci] or c.remote.direction == "out":
+                    continue
+                hs[ci] = True
+                w.feed_msg(c, dict(base, k="CER", auth=[4], host_ip_raw=["00010a0101", "0002" + "00" * 5, "00010a01010101"][i % 3]))
+                res.classes.append("cer:undecodable-host-ip")
             elif s == "REQ":
                 w.feed_msg(c, dict(base, k="REQ"))
                 last_req[ci] = i
